@@ -45,6 +45,9 @@ type ClientHSCase struct {
 	Compress bool                `json:"compress"`
 	Header   map[string][]string `json:"header,omitempty"`
 	Reply    ReplySpec           `json:"reply"`
+	// Chunks: how the transport splits the second reply into reads; RBuf: ReadBufferSize.
+	Chunks []int `json:"chunks,omitempty"`
+	RBuf   int   `json:"rbuf,omitempty"`
 }
 
 var c14Keys sync.Map // every challenge key seen in this process
@@ -130,6 +133,8 @@ func genClientHSCase(t *rapid.T) ClientHSCase {
 	r.BodyLen = rapid.SampledFrom([]int{0, 0, 1, 100, 1023, 1024, 1025, 2048, 5000}).Draw(t, "bodylen")
 	r.Chunked = rapid.IntRange(0, 3).Draw(t, "chunked") == 0
 	r.LowerNames = rapid.IntRange(0, 3).Draw(t, "lowernames") == 0
+	c.Chunks = genChunks(t, "chunks", 600)
+	c.RBuf = rapid.SampledFrom([]int{0, 0, 128, 256, 1024}).Draw(t, "rbuf")
 	return c
 }
 
@@ -208,6 +213,9 @@ func checkC14(c ClientHSCase, o *Obs) error {
 	hook := func(ctx context.Context, network, addr string) (net.Conn, error) {
 		dials++
 		rc = newReplyConn()
+		if dials == 2 {
+			rc = newReplyConnChunked(c.Chunks)
+		}
 		n := dials
 		rc.ReplyFunc = func(_ int, req []byte) []byte {
 			k := headerValue(req, "Sec-WebSocket-Key")
@@ -221,7 +229,7 @@ func checkC14(c ClientHSCase, o *Obs) error {
 		}
 		return rc, nil
 	}
-	d := websocket.Dialer{NetDialContext: hook, NetDialTLSContext: hook, Subprotocols: c.Subs, EnableCompression: c.Compress}
+	d := websocket.Dialer{NetDialContext: hook, NetDialTLSContext: hook, Subprotocols: c.Subs, EnableCompression: c.Compress, ReadBufferSize: c.RBuf}
 	var hdr http.Header
 	if c.Header != nil {
 		hdr = http.Header{}
